@@ -28,7 +28,8 @@ PREREQ = {
 }
 CANON_ORDER = ("classify", "set-zeta-grid", "set-curvature", "recession", "rise")
 READ_ONLY = ("simulate-rise", "simulate-rise-obs", "pest-rise-tpl", "pest-rise-ins", "pest-rise-pst",
-             "pest-curves-tpl", "pest-curves-ins", "pest-curves-pst", "simulate-recession")
+             "pest-curves-tpl", "pest-curves-ins", "pest-curves-pst", "simulate-recession",
+             "plot-rise", "plot-recession", "plot-rise-params", "plot-recession-params", "plot-time-series")
 FAILING_VARIANTS = ("rise-offgrid", "recession-offgrid", "rise-absent", "recession-absent",
                     "classify-badargs", "load-again", "grid-badargs",
                     # a step attempted again with OTHER argument values (refused by the singleton tables)
@@ -89,6 +90,12 @@ def _op_argv(op, knobs, load_argv=None):
         return ["simulate", "rise", "{db}", par, "--observations"]
     if op == "simulate-recession":
         return ["simulate", "recession", "{db}", os.path.join(sd, "peatclsm_parameters.yml")]
+    if op == "plot-time-series":
+        return ["plot", "time-series", "{db}", "-f"]
+    if op in ("plot-rise", "plot-recession"):
+        return ["plot", op.split("-")[1], "{db}"]
+    if op in ("plot-rise-params", "plot-recession-params"):
+        return ["plot", op.split("-")[1], "{db}", "-p", os.path.join(sd, "peatclsm_parameters.yml")]
     if op.startswith("pest-"):
         _, which, typ = op.split("-")
         return ["pestfiles", which, "{db}", par, typ]
